@@ -141,17 +141,28 @@ class BuildDirs:
         parent = os.path.dirname(prev_parent)
         with self._lock:
             self._removed_files.discard(os.path.normcase(filename))
+            is_reserving = True
             while parent != prev_parent:
                 norm_cased_parent = os.path.normcase(parent)
-                count = self._build_dir_counts.get(norm_cased_parent, 0)
-                self._build_dir_counts[norm_cased_parent] = count + 1
-                if count > 0:
-                    break
+                if is_reserving:
+                    count = self._build_dir_counts.get(norm_cased_parent, 0)
+                    self._build_dir_counts[norm_cased_parent] = count + 1
+                    if count > 0:
+                        # The remaining parents are already reserved
+                        is_reserving = False
+
+                # Another thread might have reserved a directory that we
+                # created, after seeing it in the real file system but before
+                # we got here. We must still record that the current build
+                # created the directory.
                 if parent in created_dirs_set:
-                    self._created_dirs_map[norm_cased_parent] = parent
-                    self._error_created_dirs.discard(norm_cased_parent)
-                    self._removed_files.discard(norm_cased_parent)
-                    locked_created_dirs.append(parent)
+                    if norm_cased_parent not in self._created_dirs_map:
+                        self._created_dirs_map[norm_cased_parent] = parent
+                        self._error_created_dirs.discard(norm_cased_parent)
+                        self._removed_files.discard(norm_cased_parent)
+                        locked_created_dirs.append(parent)
+                elif not is_reserving:
+                    break
 
                 prev_parent = parent
                 parent = os.path.dirname(parent)
